@@ -192,6 +192,8 @@ class SymNumpy:
     # -- predicates / selection
     @staticmethod
     def isnan(x):
+        if isinstance(x, (list, tuple)) and has_sym(x):
+            x = _np.asarray(x, dtype=object)
         if isinstance(x, _np.ndarray) and x.dtype == object:
             out = _np.empty(x.shape, dtype=bool)
             for idx, v in _np.ndenumerate(x):
@@ -202,7 +204,13 @@ class SymNumpy:
         return _np.isnan(x)
 
     @staticmethod
-    def where(cond, a, b):
+    def where(cond, *ab):
+        if not ab:  # single-argument form: indices of the true entries (forces symbolic booleans by forking)
+            c = _np.asarray(cond)
+            if c.dtype == object:
+                c = _np.array([bool(v) for v in c.flat], dtype=bool).reshape(c.shape)
+            return _np.where(c)
+        a, b = ab
         if not (has_sym(cond) or has_sym(a) or has_sym(b)) and not (
             isinstance(cond, _np.ndarray) and cond.dtype == object
         ):
